@@ -13,5 +13,5 @@ CONSTANTS
   TreeIn <- TreeA
   Threads <- ThreadsA
   Prog <- ProgB
-INVARIANTS ConcSafe HeadStored FinalSequential
+INVARIANTS ConcSafe HeadStored
 PROPERTIES ConcHeadMonotone
